@@ -62,7 +62,7 @@ func c19Gen(r *Rand, tier string) interface{} {
 	for _, l := range layouts {
 		in.Layouts[l] = c19GenLayer(r, "layout_"+l, 1, 2)
 	}
-	views := []string{"home", "list", "item"}[:1+r.Intn(3)]
+	views := []string{"home", "homepage", "item"}[:1+r.Intn(3)] // "homepage" extends "home"
 	for _, v := range views {
 		in.Views[v] = c19GenLayer(r, "view_"+v, 1, 2)
 	}
